@@ -194,7 +194,7 @@ func defaultAudFields(typ, ses, pid string, i int) audFields {
 	default:
 		f.Result = "success"
 	}
-	if i%4 == 1 && typ != "LOGIN" {
+	if (i%4 == 1 || (typ == "CRED_DISP" && i%2 == 1)) && typ != "LOGIN" {
 		if typ == "SYSCALL" {
 			f.Result = "no"
 		} else {
